@@ -1,6 +1,6 @@
 #!/bin/bash
 # confirm a seeded change in its worktree: tests pass with it, demo fails with it and passes without it
-id=$1; wt=/tmp/wt-$id; out=/verif/seeded/$id; mkdir -p $out
+id=$1; wt=${2:-/tmp/wt-$id}; out=/verif/seeded/$id; mkdir -p $out
 export CARGO_NET_OFFLINE=true
 git -C $wt diff -- src > $out/patch.diff; cp $wt/examples/demo_break.rs $out/demo_break.rs
 echo "patch lines: $(wc -l < $out/patch.diff) ; files: $(git -C $wt diff --stat -- src | tail -1)"
